@@ -311,7 +311,8 @@ def m_sym_is_symbolic(ctx, cty, a):
 @model("verif_harness::sym::param", "sym::param")
 def m_sym_param(ctx, cty, a):
     """concrete harness parameter number i (set by the driver)"""
-    return int(ctx.opts.get("params", [])[a[0]])
+    ps = ctx.opts.get("params", [])
+    return int(ps[a[0]]) if a[0] < len(ps) else 0
 
 
 @model("verif_harness::sym::set_env", "sym::set_env")
